@@ -298,7 +298,7 @@ func runCheck(o checkOpts) int {
 		}
 		if suffix != "" && ob.fx != nil && !ob.Canary && ob.HarnessJob == nil && lemmaRes[strings.TrimPrefix(ob.Name, "lemma.")] == nil {
 			// look for an input of the real function on which a contract clause is false (witness.go)
-			if _, seen := witCache[ob.fx.key]; seen || witFuncs < 3 {
+			if _, seen := witCache[ob.fx.key]; seen || witFuncs < 2 {
 				if !seen {
 					witFuncs++
 				}
@@ -311,7 +311,7 @@ func runCheck(o checkOpts) int {
 					rep["witness_search"] = note
 				}
 			} else {
-				rep["witness_search"] = "skipped: three functions were already searched in this run"
+				rep["witness_search"] = "skipped: two functions were already searched in this run"
 			}
 			if _, ok := rep["replay_on_real_code"]; !ok {
 				rep["replay_on_real_code"] = rep["witness_search"]
